@@ -888,8 +888,8 @@ class Progress(JupyterMixin, RenderHook):
             task_id (TaskID): ID of task.
             advance (float): Number of steps to advance. Default is 1.
         """
-        current_time = self.get_time()
         with self._lock:
+            current_time = self.get_time()
             task = self._tasks[task_id]
             completed_start = task.completed
             task.completed += advance
